@@ -45,8 +45,17 @@ func (t Tree) String() string {
 
 // Write out the entire AST to a strings.Builder.
 func (t Tree) Write(s *strings.Builder) {
+	afterComment := false // Whether the last thing written was a comment line
 	for _, n := range t.Nodes {
+		if task, ok := n.(Task); ok && afterComment && task.Docstring.String() == "" {
+			// An empty comment line stops the comment above being read back as this task's docstring
+			s.WriteString("#\n")
+		}
+		before := s.Len()
 		n.Write(s)
+		if s.Len() != before {
+			afterComment = n.Type() == NodeComment
+		}
 	}
 }
 
